@@ -240,11 +240,16 @@ class Inliner:
         return new
 
     def hoist_args(self, caller, s):
-        """`obj.m(..., self._h(x), ...)` as a statement  ->  `tmp = self._h(x); obj.m(..., tmp, ...)`"""
-        if not (isinstance(s, ast.Expr) and isinstance(s.value, ast.Call)):
+        """`obj.m(..., self._h(x), ...)` / `y = f(..., kw=self._h(x))`  ->  `tmp = self._h(x); obj.m(..., tmp, ...)` / `y = f(..., kw=tmp)`
+        (only when the arguments evaluated before the helper call are free of calls, so that the order of effects is kept)"""
+        if isinstance(s, ast.Expr) and isinstance(s.value, ast.Call):
+            outer = s.value
+        elif isinstance(s, ast.Assign) and isinstance(s.value, ast.Call):
+            outer = s.value
+        else:
             return None
-        outer = s.value
-        for k, a in enumerate(outer.args):
+        slots = [("arg", k, a) for k, a in enumerate(outer.args)] + [("kw", k, kw.value) for k, kw in enumerate(outer.keywords)]
+        for kind, k, a in slots:
             if isinstance(a, ast.Call):
                 helper, recv = self.helper_for(caller, a)
                 if helper is not None:
@@ -255,14 +260,20 @@ class Inliner:
                     for n in ast.walk(pre):
                         if not hasattr(n, "lineno"):
                             n.lineno, n.col_offset = s.lineno, 0
-                    new_outer = clone(outer)
-                    new_outer.args[k] = ast.Name(id=tmp, ctx=ast.Load(), lineno=s.lineno, col_offset=0)
-                    post = ast.Expr(value=new_outer)
-                    ast.copy_location(post, s)
-                    post.lineno = s.lineno + 0.5
-                    for n in ast.walk(post):
+                    new_stmt = clone(s)
+                    new_outer = new_stmt.value
+                    ref = ast.Name(id=tmp, ctx=ast.Load(), lineno=s.lineno, col_offset=0)
+                    if kind == "arg":
+                        new_outer.args[k] = ref
+                    else:
+                        new_outer.keywords[k].value = ref
+                    ast.copy_location(new_stmt, s)
+                    new_stmt.lineno = s.lineno + 0.5
+                    for n in ast.walk(new_stmt):
                         n.lineno = s.lineno + 0.5
-                    return [pre, post]
+                    return [pre, new_stmt]
+            if any(isinstance(n, ast.Call) for n in ast.walk(a)):
+                return None           # an earlier argument has effects of its own: leave the statement alone
         return None
 
     def process_block(self, caller, stmts):
@@ -329,9 +340,16 @@ def _inlinable_position(call):
         return True
     if isinstance(par, (ast.Assign, ast.AugAssign, ast.Return)) and par.value is call:
         return True
-    if isinstance(par, ast.Call) and any(a is call for a in par.args) and isinstance(getattr(par, "_parent", None), ast.Expr):
+    if isinstance(par, ast.Call) and any(a is call for a in par.args) and _stmt_level_call(par):
+        return True
+    if isinstance(par, ast.keyword) and isinstance(getattr(par, "_parent", None), ast.Call) and _stmt_level_call(par._parent):
         return True
     return False
+
+
+def _stmt_level_call(c):
+    pp = getattr(c, "_parent", None)
+    return isinstance(pp, ast.Expr) or (isinstance(pp, ast.Assign) and pp.value is c)
 
 
 def _expression_helper(fn):
